@@ -9,7 +9,7 @@ names="$@"; [ -z "$names" ] && names=$(ls seeded | grep -v MATRIX)
 for n in $names; do
   prop=$(python3 -c "import json;print(json.load(open('seeded/$n/meta.json'))['property'])")
   git -C /repo apply /verif/seeded/$n/patch.diff || { echo "$n: patch does not apply"; continue; }
-  ./check $prop quick > /tmp/seedmatrix-$n.log 2>&1; rc=$?
+  bin/govc check --property $prop --tier quick --verif /verif --no-evidence > /tmp/seedmatrix-$n.log 2>&1; rc=$?
   git -C /repo checkout -- .
   python3 - "$n" "$rc" <<'PY'
 import json,sys
